@@ -540,7 +540,8 @@ impl<C: CrcCalculator> Encapsulator<C> {
         let encap_status: EncapStatus;
         // End packet
         // if the rest of packet fits in the buffer
-        if buffer_len >= gse_end_len + FIXED_HEADER_LEN {
+        // and in the 12 bits GSE length
+        if buffer_len >= gse_end_len + FIXED_HEADER_LEN && gse_end_len <= GSE_LEN_MAX {
             header =
                 generate_gse_header(&PktType::EndFragPkt, &LabelType::ReUse, gse_end_len as u16);
             pdu_len_encapsulated = pdu_len_remaining;
@@ -555,7 +556,12 @@ impl<C: CrcCalculator> Encapsulator<C> {
         else if buffer_len > FIXED_HEADER_LEN + FRAG_ID_LEN {
             let gse_len: usize;
 
-            let pdu_len_available = buffer_len - (FIXED_HEADER_LEN + FRAG_ID_LEN);
+            // the fragment is limited by the buffer and by the 12 bits GSE length
+            let pdu_len_available = if buffer_len - (FIXED_HEADER_LEN + FRAG_ID_LEN) < GSE_LEN_MAX - FRAG_ID_LEN {
+                buffer_len - (FIXED_HEADER_LEN + FRAG_ID_LEN)
+            } else {
+                GSE_LEN_MAX - FRAG_ID_LEN
+            };
 
             if pdu_len_available > pdu_len_remaining {
                 gse_len = FRAG_ID_LEN + pdu_len_remaining;
@@ -959,7 +965,8 @@ pub fn encap_frag_preview(
     let pkt_len: u16;
     // End packet
     // if the rest of packet fits in the buffer
-    if buffer_len >= gse_end_len + FIXED_HEADER_LEN {
+    // and in the 12 bits GSE length
+    if buffer_len >= gse_end_len + FIXED_HEADER_LEN && gse_end_len <= GSE_LEN_MAX {
         pdu_len_encapsulated = pdu_len_remaining;
 
         let mut buffer_offset = FIXED_HEADER_LEN + FRAG_ID_LEN + pdu_len_encapsulated;
@@ -972,7 +979,12 @@ pub fn encap_frag_preview(
     else if buffer_len > FIXED_HEADER_LEN + FRAG_ID_LEN {
         let gse_len: usize;
 
-        let pdu_len_available = buffer_len - (FIXED_HEADER_LEN + FRAG_ID_LEN);
+        // the fragment is limited by the buffer and by the 12 bits GSE length
+        let pdu_len_available = if buffer_len - (FIXED_HEADER_LEN + FRAG_ID_LEN) < GSE_LEN_MAX - FRAG_ID_LEN {
+            buffer_len - (FIXED_HEADER_LEN + FRAG_ID_LEN)
+        } else {
+            GSE_LEN_MAX - FRAG_ID_LEN
+        };
 
         if pdu_len_available > pdu_len_remaining {
             gse_len = FRAG_ID_LEN + pdu_len_remaining;
